@@ -111,3 +111,11 @@ r3ser!(c08_r3_serialize_v0, 0);
 r3ser!(c08_r3_serialize_v1, 1);
 r3ser!(c08_r3_serialize_v3, 3);
 r3ser!(c08_r3_serialize_v8, 8);
+
+// native replay of counterexamples: bin/check writes the unit test Kani generated (`--concrete-playback=print`) into the
+// included file and runs `cargo kani playback`; the file is empty otherwise.
+#[allow(unused_imports, dead_code)]
+mod playback {
+    use super::*;
+    include!("/verif/harness/playback/foyer-storage/serde__verif_kani.rs");
+}
